@@ -36,10 +36,17 @@ def cases(tier, seed):
     for rep in range(2 if tier == 'quick' else 12):
         for i in range(len(WITNESSES)):
             out.insert(0, {'prop': ID, 'seed': seed, 'idx': 10 ** 6 + rep * 100 + i, 'kind': 'witness', 'witness': i, 'tier': tier})
+    wit = [c for c in out if c['kind'] == 'witness']
     big = [c for c in out if c['kind'] in ('corpus', 'union')]
-    head = big[:120]
-    hs = {id(c) for c in head}
-    return head + [c for c in out if id(c) not in hs]
+    small = [c for c in out if c['kind'].startswith('small')]
+    head = []
+    for i in range(max(len(big[:120]), len(small))):       # alternate: a slow machine still reaches every kind
+        if i < len(small):
+            head.append(small[i])
+        if i < len(big[:120]):
+            head.append(big[i])
+    hs = {id(c) for c in head} | {id(c) for c in wit}
+    return wit + head + [c for c in out if id(c) not in hs]
 
 
 def run_case(case):
@@ -91,6 +98,11 @@ def run_case(case):
 
     # ---- batch 1 ------------------------------------------------------------------
     rules = [rng.choice(conds) for _ in range(3)]
+    if wq:
+        # the witness's own (delicate) queries take the place of two of the three rules: their antecedents and
+        # consequents then run through every postulate instance below (RW partner, And, CM/Cut, RM, Or)
+        pick = rng.sample(wq, min(2, len(wq)))
+        rules[0], rules[1] = pick[0], pick[-1]
     As = [r[1] for r in rules[:2]]
     As.append(And(rules[2][1], rules[2][0]) if rng.random() < 0.5 else fml.rand_formula(rng, atoms, 1, 0.0))
     if rng.random() < 0.5:
@@ -112,13 +124,6 @@ def run_case(case):
     Cs.append(Not(Cs[1]))                         # RM side condition
     Cs.append(fml.rand_formula(rng, atoms, 1, 0.02))
     Cs.append(V(rng.choice(atoms)))
-    if wq:
-        # the witness's own (delicate) queries supply antecedents and consequents
-        pick = rng.sample(wq, min(2, len(wq)))
-        while len(As) < 4:
-            As.append(pick[0][1])
-        As[2], As[3] = pick[0][1], pick[-1][1]
-        Cs[-2], Cs[-1] = pick[0][0], pick[-1][0]
     b1 = []                                       # (tag, B, A)
     for ai, A in enumerate(As):
         for ci, C in enumerate(Cs):
@@ -171,7 +176,7 @@ def run_case(case):
                 inst('SCL', True, v, query=T(B, A))
             elif t[0] == 'CP' and not weakly:
                 # antecedents of rules of a strongly consistent base are satisfiable (verifiable rules)
-                if t[1] < 2:
+                if t[1] < 2 and not wq:
                     inst('CP', True, not v, query=T(B, A))
         rw_ci = len(rules)                      # index of Cs[0] ; X
         for ai in range(len(As)):
